@@ -4,6 +4,7 @@ import GdVerif.Run.GenValve
 import GdVerif.Run.ValveFaults
 import GdVerif.Run.Gs1
 import GdVerif.Run.GenGs1
+import GdVerif.Run.Gs1Faults
 import GdVerif.Run.Gs2
 import GdVerif.Run.GenGs2
 import GdVerif.Run.Gs2Faults
@@ -65,6 +66,7 @@ def allEntries : List (String × (List String → String)) := List.flatten [
   smallEntries,
   ffowFaultEntries,
   gs1Entries,
+  gs1FaultEntries,
   gs2Entries,
   gs2FaultEntries
   ]
